@@ -406,7 +406,7 @@ fn c26_multimap(seed: u64, steps: usize, alphabet: u64, key_len: usize) -> i32 {
 }
 fn c26_multimap_sweep(seeds: u64, steps: usize) -> i32 {
     for seed in 1..=seeds {
-        for (alphabet, key_len) in [(3u64, 700usize), (5, 1500), (2, 400), (8, 2000), (40, 16)] {
+        for (alphabet, key_len) in [(3u64, 700usize), (5, 1500), (2, 400), (8, 2000), (40, 16), (12, 1009), (150, 1000), (400, 8)] {
             if c26_multimap(seed, steps, alphabet, key_len) != 0 { return 1; }
         }
     }
@@ -499,6 +499,46 @@ fn c18_ownership_mix(seeds: u64, steps: usize) -> i32 {
     0
 }
 
+/// Witness class for C27: pairwise order / equality / prefix-freedom of encoded keys over a fixed set of
+/// awkward values per kind (embedded NULs and 0xFF, tiny and huge floats, boundary integers), and the
+/// composite index key.  Bounded search over a dictionary, not a proof.
+fn c27_key_samples() -> i32 {
+    use nervusdb_storage::index::ordered_key::{encode_index_key, encode_ordered_value};
+    use nervusdb_api::PropertyValue as V;
+    let ints: Vec<i64> = vec![i64::MIN, i64::MIN + 1, -(1 << 53) - 1, -256, -255, -1, 0, 1, 127, 128, 255, 256, (1 << 53) + 1, i64::MAX - 1, i64::MAX];
+    let floats: Vec<f64> = vec![f64::NEG_INFINITY, -1e300, -2.0000000000000004, -2.0, -1.0000000000000002, -1.0, -1e-17, -1e-300, -5e-324, -0.0, 0.0, 5e-324, 1e-300, 1e-17, 1.0, 1.0000000000000002, 2.0, 2.0000000000000004, 1e300, f64::INFINITY];
+    let bytes: Vec<Vec<u8>> = vec![vec![], vec![0], vec![0, 0], vec![0, 1], vec![0, 0xFF], vec![1], vec![1, 0], vec![0x61], vec![0x61, 0], vec![0x61, 0, 0x78], vec![0x61, 1], vec![0x6B, 0], vec![0x6B, 0x7A], vec![0xFF], vec![0xFF, 0], vec![0xFF, 0xFF]];
+    let mut bad: Vec<String> = Vec::new();
+    let proper_prefix = |a: &[u8], b: &[u8]| a.len() < b.len() && &b[..a.len()] == a;
+    let mut all: Vec<(String, Vec<u8>)> = Vec::new();
+    macro_rules! family { ($name:expr, $vals:expr, $mk:expr, $lt:expr, $eq:expr) => {{
+        let vals = $vals;
+        for a in vals.iter() { for b in vals.iter() {
+            let (ea, eb) = (encode_ordered_value(&$mk(a)), encode_ordered_value(&$mk(b)));
+            if $lt(a, b) && !(ea < eb) { bad.push(format!("{}: {:?} < {:?} but enc is not smaller", $name, a, b)); }
+            if $eq(a, b) != (ea == eb) { bad.push(format!("{}: {:?} = {:?} is {} but enc equality is {}", $name, a, b, $eq(a, b), ea == eb)); }
+        } }
+        for a in vals.iter() { all.push((format!("{} {:?}", $name, a), encode_ordered_value(&$mk(a)))); }
+    }}; }
+    family!("Int", &ints, |x: &i64| V::Int(*x), |a: &i64, b: &i64| a < b, |a: &i64, b: &i64| a == b);
+    family!("DateTime", &ints, |x: &i64| V::DateTime(*x), |a: &i64, b: &i64| a < b, |a: &i64, b: &i64| a == b);
+    family!("Float", &floats, |x: &f64| V::Float(*x), |a: &f64, b: &f64| a < b, |a: &f64, b: &f64| a == b);
+    family!("Blob", &bytes, |x: &Vec<u8>| V::Blob(x.clone()), |a: &Vec<u8>, b: &Vec<u8>| a < b, |a: &Vec<u8>, b: &Vec<u8>| a == b);
+    let strs: Vec<String> = bytes.iter().filter_map(|b| String::from_utf8(b.clone()).ok()).collect();
+    family!("String", &strs, |x: &String| V::String(x.clone()), |a: &String, b: &String| a.as_bytes() < b.as_bytes(), |a: &String, b: &String| a == b);
+    family!("Bool", &vec![false, true], |x: &bool| V::Bool(*x), |a: &bool, b: &bool| a < b, |a: &bool, b: &bool| a == b);
+    all.push(("Null".into(), encode_ordered_value(&V::Null)));
+    for (na, ea) in &all { for (nb, eb) in &all { if proper_prefix(ea, eb) { bad.push(format!("enc({na}) is a proper prefix of enc({nb})")); } } }
+    for (i, a) in strs.iter().enumerate() { for b in strs.iter().skip(i + 1) {
+        for (na, nb) in [(u64::MAX, 0u64), (0, u64::MAX), (0xFF00_0000_0000_0000, 1)] {
+            let (ka, kb) = (encode_index_key(7, &V::String(a.clone()), na), encode_index_key(7, &V::String(b.clone()), nb));
+            if (a.as_bytes() < b.as_bytes()) != (ka < kb) { bad.push(format!("index key order of {:?}/{na:#x} vs {:?}/{nb:#x} does not follow the values", a, b)); }
+        }
+    } }
+    if bad.is_empty() { println!("conforms: {} encoded values pairwise ordered, distinct and prefix-free", all.len()); 0 }
+    else { println!("VIOLATION reproduced: {} ({} violations in all)", bad[0], bad.len()); 1 }
+}
+
 fn main() {
     let a: Vec<String> = std::env::args().collect();
     let code = match a.get(1).map(|s| s.as_str()) {
@@ -509,6 +549,7 @@ fn main() {
         Some("c17_truncate_every_byte") => c17_truncate_every_byte(),
         Some("c17_commit_after_tail") => c17_commit_after_tail(&[0x01, 0x02]),
         Some("c18_node_table_spill") => c18_node_table_spill(),
+        Some("c27_key_samples") => c27_key_samples(),
         Some("c18_ownership_mix_quick") => c18_ownership_mix(6, 60),
         Some("c18_ownership_mix_thorough") => c18_ownership_mix(30, 120),
         Some("c26_multimap_quick") => c26_multimap_sweep(3, 400),
